@@ -543,8 +543,27 @@ func R9AckOrder(c *Ctx) {
 		c.R.Bad(rule, FuncShort(hd), "Teamserver.AgentAdd(Agent)", c.pos(hd.Pos()), "a registration is no longer added/persisted")
 	} else {
 		n := 0
+		writes := func(call ssa.CallInstruction) bool {
+			if CalleeName(call) == "(*bytes.Buffer).Write" {
+				return true
+			}
+			// a helper of this package that writes the reply
+			h := call.Common().StaticCallee()
+			if h == nil || h.Blocks == nil || FuncPkgPathOf(h) != PkgHandlers || h == regFn {
+				return false
+			}
+			found := false
+			for _, hf := range HelperClosure(h, 1) {
+				EachCall(hf, func(c2 ssa.CallInstruction) {
+					if CalleeName(c2) == "(*bytes.Buffer).Write" {
+						found = true
+					}
+				})
+			}
+			return found
+		}
 		EachCall(regFn, func(call ssa.CallInstruction) {
-			if CalleeName(call) != "(*bytes.Buffer).Write" {
+			if !writes(call) {
 				return
 			}
 			// only writes in the registration branch: those the parse of a register request dominates
